@@ -267,7 +267,23 @@ pub fn judge(rt: &tokio::runtime::Runtime, r: &mut Report, case: &Case) {
 }
 
 fn framing_for(g: &mut Rng, body: &[u8], metas: &[EncodedChunk]) -> (Option<Framing>, &'static str) {
-    match g.below(6) {
+    match g.below(7) {
+        6 => {
+            // chunk aligned, with zero-length transport frames after chunk ends (what follows the last chunk of
+            // the unfaulted upload - nothing, or the bytes a fault added - travels in later frames)
+            let mut cuts: Vec<usize> = Vec::new();
+            for m in metas {
+                cuts.push(m.end - m.start);
+                for _ in 0..g.usize_below(3) {
+                    cuts.push(0);
+                }
+            }
+            if cuts.last() != Some(&0) && g.chance(1, 2) {
+                cuts.push(0);
+            }
+            let n = cuts.len();
+            (Some(Framing { cuts, pendings: (0..n).map(|_| g.below(2) as u8).collect(), pending_at_end: g.below(2) as u8, immediate_wake: g.chance(1, 2), ..Default::default() }), "chunk-aligned+empty-frames")
+        }
         0 => (None, "once"),
         1 => (Some(Framing::default()), "single-frame"),
         2 => {
